@@ -401,6 +401,15 @@ def run_shard(ctx: Ctx) -> None:
                 pkg_batch = []
     if pkg_batch:
         check_pkg(ctx, pkg_batch)
+    # documents that are merely large: hundreds of references to one finished schema, spelled so that derivation rewrites
+    # its name (and, as a control, so that it does not)
+    for wi, shared in enumerate(["audit_info", "AuditInfo", "HTTPAudit"]):
+        if ctx.mine(wi):
+            wdoc, wres = graphgen.wide_doc(shared)
+            rec.case({"wide": shared})
+            rec.count("wide_documents")
+            check_pkg(ctx, [{"doc": wdoc, "resolved": wres, "on_cycle": set(), "desc": {"phase": "wide", "scheme": "rewritten", "shared": shared},
+                             "feats": ["wide_document"], "n": ctx.shard * 100000 + 95000 + wi}])
     ti = trio_items(ctx)
     for i in range(0, len(ti), 10):
         check_pkg(ctx, ti[i:i + 10])
@@ -420,6 +429,10 @@ def replay(ctx: Ctx, file: dict) -> None:
         check_shapes(ctx, [(j, tuple(s2)) for j, s2 in file["case"].get("chunk") or [[file["case"]["index"], file["case"]["shape"]]]], 1)
         return
     d = file["case"]["desc"]
+    if d.get("phase") == "wide":
+        wdoc, wres = graphgen.wide_doc(d["shared"])
+        check_pkg(ctx, [{"doc": wdoc, "resolved": wres, "on_cycle": set(), "desc": d, "feats": ["wide_document"], "n": 1}])
+        return
     if d.get("phase") == "name_trio":
         doc = file["case"]["doc"]
         resolved = {nm: {k: (v["type"], k in sch.get("required", []), None) for k, v in sch["properties"].items()}
